@@ -15,3 +15,4 @@ import Helm.Props.C03
 #print axioms Helm.Props.C03.atomic_restores_previous_manifest
 #print axioms Helm.Props.C03.cleanup_removes_created
 #print axioms Helm.Props.C03.failure_paths_skeleton
+#print axioms Helm.Props.C03.atomic_glue_forwards_flags
